@@ -784,6 +784,56 @@ class SymNP:
                 out[idx + (k_,)] = v
         return _np.moveaxis(out, -1, axis).view(SymArray)
 
+    def unique(self, ar, return_index=False, return_inverse=False, return_counts=False, axis=None, **kw):
+        """sorted unique elements / rows; the order and equality of symbolic entries is decided by forking"""
+        USED.add("unique")
+        ar = self.asarray(ar)
+        if not is_sym(ar):
+            return _np.unique(ar, return_index=return_index, return_inverse=return_inverse, return_counts=return_counts, axis=axis)
+        import functools
+
+        a = _base(ar)
+        if axis is None:
+            a = a.ravel()
+            rows = [(e,) for e in a.tolist()]
+        else:
+            if axis != 0:
+                a = _np.moveaxis(a, axis, 0)
+            rows = [tuple(a[i].ravel().tolist()) for i in range(a.shape[0])]
+
+        def cmp(i, j):
+            for x, y in zip(rows[i], rows[j]):
+                x, y = SymReal.lift(x), SymReal.lift(y)
+                if bool(x < y):
+                    return -1
+                if bool(x > y):
+                    return 1
+            return 0
+
+        order = sorted(range(len(rows)), key=functools.cmp_to_key(cmp))
+        groups = []
+        for i in order:
+            if groups and cmp(groups[-1][0], i) == 0:
+                groups[-1].append(i)
+            else:
+                groups.append([i])
+        first = [min(g) for g in groups]
+        inverse = _np.zeros(len(rows), dtype=int)
+        for gi, g in enumerate(groups):
+            for i in g:
+                inverse[i] = gi
+        uniq = a[first]
+        if axis not in (None, 0):
+            uniq = _np.moveaxis(uniq, 0, axis)
+        out = [_wrap(uniq)]
+        if return_index:
+            out.append(_np.array(first, dtype=int))
+        if return_inverse:
+            out.append(inverse)
+        if return_counts:
+            out.append(_np.array([len(g) for g in groups], dtype=int))
+        return out[0] if len(out) == 1 else tuple(out)
+
     def flatnonzero(self, a):
         USED.add("flatnonzero")
         if is_sym(a):
